@@ -16,7 +16,13 @@
   * `toBool v ↔ v ∉ {false, null, 0}` and missing is false; `$and/$or/$not` over `toBool`;
   * `$cond` picks a branch by `toBool`; `$ifNull` returns the first operand that is neither null
     nor missing; `$switch` the `then` of the first true `case`, else `default`;
-  * `$let/$map/$filter` bind variables for the evaluation of `in` / `cond`.
+  * `$let/$map/$filter` bind variables for the evaluation of `in` / `cond`;
+  * `$sum $avg $min $max` as expression operators range over the values of their operand list —
+    or, given one operand that is not written as a list, over the elements of its value when that
+    is an array, else over that one value: `$sum` adds the numbers (anything else, booleans
+    included, is ignored; no number: 0), `$avg` is their mean, a double (no number: null),
+    `$min` / `$max` is the first least / greatest, in the BSON order, of the values that are
+    neither null nor missing (none: null).  An array among several operands is one value.
 
   Shares with the model only the value type, the association-list helpers and the exact
   int / dyadic-double arithmetic of MongoModel.ExprOps (`PyNum`, `mkF`, `pyDivide`, civil dates).
@@ -340,13 +346,53 @@ def toStringS (a : Option Val) : R Val :=
     | some (.str s) => .ok (.str s)
     | _ => unmodelled
 
+/-! ### `$sum $avg $min $max` on evaluated operands -/
+
+def accOps : List String := ["$sum", "$avg", "$min", "$max"]
+
+/-- the numbers among the operand values: null, missing, booleans and every other type are
+    ignored -/
+def numbersOf : List (Option Val) → List PyNum
+  | [] => []
+  | v :: r => match v.bind number with | some n => n :: numbersOf r | none => numbersOf r
+
+/-- the operand values that are neither null nor missing -/
+def presentOf (vs : List (Option Val)) : List Val :=
+  vs.filterMap (fun v => if nullish v then none else v)
+
+/-- the first greatest (`isMax`) / least element of `best :: vs` in the BSON order: a later value
+    replaces the best one so far only when it is strictly greater / less -/
+def extremumS (isMax : Bool) : List Val → Val → Val
+  | [], best => best
+  | v :: r, best =>
+    extremumS isMax r (if (if isMax then ord best v == .lt else ord v best == .lt) then v else best)
+
+/-- `$sum $avg $min $max` over the operand values -/
+def accS (k : String) (vs : List (Option Val)) : R Val :=
+  if k = "$sum" then do (← sumAll (numbersOf vs) (.i 0)).toVal
+  else if k = "$avg" then
+    (if (numbersOf vs).isEmpty then .ok .null
+     else do pyDivide (← sumAll (numbersOf vs) (.i 0)) (.f (numbersOf vs).length 0))
+  else if k = "$min" || k = "$max" then
+    (match presentOf vs with
+     | [] => .ok .null
+     | y :: r => .ok (extremumS (k = "$max") r y))
+  else .error .opFail
+
+/-- one operand that is not written as a list: an array value stands for the list of its
+    elements, any other value (null and missing included) for itself -/
+def accBareS (k : String) (a : Option Val) : R Val :=
+  match a with
+  | some (.arr xs) => accS k (xs.map some)
+  | a => accS k [a]
+
 /-! ### operators whose operands are all evaluated first -/
 
 def strictOps : List String :=
   ["$add", "$multiply", "$subtract", "$divide", "$mod", "$pow", "$abs", "$ceil", "$floor",
    "$trunc", "$eq", "$ne", "$gt", "$gte", "$lt", "$lte", "$cmp", "$not", "$concat", "$toLower",
    "$toUpper", "$strcasecmp", "$size", "$concatArrays", "$arrayElemAt", "$in", "$isArray",
-   "$isNumber", "$toString"] ++ datePartOps
+   "$isNumber", "$toString"] ++ datePartOps ++ accOps
 
 def lazyOps : List String :=
   ["$literal", "$and", "$or", "$cond", "$ifNull", "$switch", "$let", "$map", "$filter"]
@@ -393,6 +439,7 @@ def applyStrict (k : String) (vs : List (Option Val)) : R (Option Val) :=
     (match vs with | [a] => (toStringS a).map some | _ => .error .opFail)
   else if datePartOps.contains k then
     (match vs with | [a] => (datePartS k a).map some | _ => .error .opFail)
+  else if accOps.contains k then (accS k vs).map some
   else unmodelled
 
 /-- `$switch` branches are well formed: documents with `case` and `then` -/
@@ -499,6 +546,7 @@ mutual
             | some r => pure r
             | none => if dhas "default" gs then sAt root env "default" gs else .error .opFail
         | _ => .error .opFail
+      else if accOps.contains k then do (accBareS k (← sEval root env (.doc gs))).map some
       else if strictOps.contains k then do applyStrict k [← sEval root env (.doc gs)]
       else if k = "$and" || k = "$or" then do
         pure (some (.bool (toBool (← sEval root env (.doc gs)))))
@@ -506,6 +554,7 @@ mutual
       else unmodelled
     | [(k, v)] =>
       if k = "$literal" then .ok (some v)
+      else if accOps.contains k then do (accBareS k (← sEval root env v)).map some
       else if strictOps.contains k then do applyStrict k [← sEval root env v]
       else if k = "$and" || k = "$or" then do pure (some (.bool (toBool (← sEval root env v))))
       else if lazyOps.contains k then .error .opFail
